@@ -71,6 +71,9 @@ func gVal(id int) string {
 func gVal0(id int) string {
 	vi, ok := vtable[id]
 	if !ok {
+		vi, ok = dynInfo[id]
+	}
+	if !ok {
 		return fmt.Sprintf("(mkV %d None false)", 999999)
 	}
 	cls := "None"
@@ -84,6 +87,9 @@ func gVal0(id int) string {
 func valOf(v interface{}) int {
 	defer func() { _ = recover() }() // unhashable dynamic type
 	if id, ok := vindex[v]; ok {
+		return id
+	}
+	if id, ok := dynIndex[v]; ok {
 		return id
 	}
 	return -1
@@ -103,7 +109,7 @@ func (n tname) impl() px.TypedName {
 	return px.NewTypedName2(px.Namespace(n.Ns), n.Name, authorities[n.Auth])
 }
 
-var nsSym = map[string]string{"type": "NsT", "function": "NsF", "x": "NsX"}
+var nsSym = map[string]string{"type": "NsT", "function": "NsF", "x": "NsX", "constructor": "NsC", "allocator": "NsA"}
 
 func (n tname) gallina() string {
 	ns, ok := nsSym[n.Ns]
@@ -192,36 +198,38 @@ func (p predT) gallina() string {
 // ---- operations ------------------------------------------------------------------------------
 
 type opT struct {
-	Kind string `json:"op"` // NewParented Fork NewTypeSet NewDep Define Load LoadEntry GetEntry Has Discover AddType
+	Kind string `json:"op"` // NewParented Fork NewTypeSet NewDep Define Load LoadEntry GetEntry Has Discover AddType AddTypes
 	L    int    `json:"l"`
+	A    []int  `json:"a,omitempty"` // AddTypes: the types handed to px.AddTypes (item < 100: declaration addDecls[item], parsed afresh; else the value item-100 of the table)
 	T    int    `json:"t,omitempty"`
 	N    tname  `json:"n,omitempty"`
 	V    int    `json:"v,omitempty"`
 	P    predT  `json:"p,omitempty"`
 }
 
-func (o opT) gallina() string {
+// gallina: the operation as a term of the model, l = the model's index of loader o.L
+func (o opT) gallina(l int) string {
 	switch o.Kind {
 	case "NewParented":
-		return fmt.Sprintf("ONewParented %d", o.L)
+		return fmt.Sprintf("ONewParented %d", l)
 	case "Fork":
-		return fmt.Sprintf("OFork %d", o.L)
+		return fmt.Sprintf("OFork %d", l)
 	case "NewTypeSet":
-		return fmt.Sprintf("ONewTypeSet %d %d", o.L, o.T)
+		return fmt.Sprintf("ONewTypeSet %d %d", l, o.T)
 	case "NewDep":
 		return "ONewDep"
 	case "Define", "AddType":
-		return fmt.Sprintf("ODefine %d %s %s", o.L, o.N.gallina(), gVal(o.V))
+		return fmt.Sprintf("ODefine %d %s %s", l, o.N.gallina(), gVal(o.V))
 	case "Load":
-		return fmt.Sprintf("OLoad %d %s", o.L, o.N.gallina())
+		return fmt.Sprintf("OLoad %d %s", l, o.N.gallina())
 	case "LoadEntry":
-		return fmt.Sprintf("OLoadEntry %d %s", o.L, o.N.gallina())
+		return fmt.Sprintf("OLoadEntry %d %s", l, o.N.gallina())
 	case "GetEntry":
-		return fmt.Sprintf("OGetEntry %d %s", o.L, o.N.gallina())
+		return fmt.Sprintf("OGetEntry %d %s", l, o.N.gallina())
 	case "Has":
-		return fmt.Sprintf("OHas %d %s", o.L, o.N.gallina())
+		return fmt.Sprintf("OHas %d %s", l, o.N.gallina())
 	case "Discover":
-		return fmt.Sprintf("ODiscover %d %s", o.L, o.P.gallina())
+		return fmt.Sprintf("ODiscover %d %s", l, o.P.gallina())
 	}
 	panic("bad op " + o.Kind)
 }
@@ -238,6 +246,16 @@ func (o opT) String() string {
 		return fmt.Sprintf("%s(l%d,%s,v%d)", o.Kind, o.L, o.N, o.V)
 	case "Discover":
 		return fmt.Sprintf("Discover(l%d,%s%s)", o.L, o.P.Kind, o.P.S)
+	case "AddTypes":
+		ns := make([]string, len(o.A))
+		for i, a := range o.A {
+			if a < 100 {
+				ns[i] = addDecls[a].label
+			} else {
+				ns[i] = fmt.Sprintf("v%d", a-100)
+			}
+		}
+		return fmt.Sprintf("AddTypes(l%d,[%s])", o.L, strings.Join(ns, ","))
 	}
 	return fmt.Sprintf("%s(l%d,%s)", o.Kind, o.L, o.N)
 }
@@ -331,6 +349,8 @@ func gallinaPrelude() string {
 	b.WriteString("Definition NsT : str := " + lib.GStr("type") + ".\n")
 	b.WriteString("Definition NsF : str := " + lib.GStr("function") + ".\n")
 	b.WriteString("Definition NsX : str := " + lib.GStr("x") + ".\n")
+	b.WriteString("Definition NsC : str := " + lib.GStr("constructor") + ".\n")
+	b.WriteString("Definition NsA : str := " + lib.GStr("allocator") + ".\n")
 	es := make([]string, len(staticEntries))
 	for i, e := range staticEntries {
 		es[i] = lib.GPair(lib.GStr(e.key), gVal(e.val))
@@ -357,10 +377,24 @@ type world struct {
 	ctxs    []px.Context
 	typeset []bool
 	parent  []int
+	lastAdd    []*mtypeT // the types of the last AddTypes operation, as the harness saw them
+	lastHidden int       // the type-set loaders it made (resolution of type sets): loaders of the model, out of reach here
+	hidden     int       // ... so far
+	midx       []int     // the model's index of loader l
+	ninst      int       // declarations parsed so far in this history
+}
+
+// ml: the model's index of loader l at this point of the history (an index out of range stays out of range)
+func (w *world) ml(l int) int {
+	if l >= 0 && l < len(w.midx) {
+		return w.midx[l]
+	}
+	return l + w.hidden
 }
 
 func newWorld(c px.Context) *world {
-	return &world{c: c, loaders: []px.Loader{px.StaticLoader()}, ctxs: []px.Context{nil}, typeset: []bool{false}, parent: []int{-1}}
+	dynIndex = map[interface{}]int{}
+	return &world{c: c, loaders: []px.Loader{px.StaticLoader()}, ctxs: []px.Context{nil}, typeset: []bool{false}, parent: []int{-1}, midx: []int{0}}
 }
 
 func (w *world) with(l int, f func(c px.Context)) {
@@ -376,6 +410,7 @@ func (w *world) add(l px.Loader, c px.Context, parent int, typeset bool) string 
 	w.ctxs = append(w.ctxs, c)
 	w.parent = append(w.parent, parent)
 	w.typeset = append(w.typeset, typeset)
+	w.midx = append(w.midx, len(w.loaders)-1+w.hidden) // the model counts the hidden loaders too
 	return fmt.Sprintf("RNew %d", len(w.loaders)-1)
 }
 
@@ -415,6 +450,9 @@ func (w *world) apply(o opT) (res string) {
 	}()
 	if o.Kind == "NewDep" {
 		return w.add(px.NewDependencyLoader(nil), nil, -1, false)
+	}
+	if o.Kind == "AddTypes" {
+		return w.applyAddTypes(o)
 	}
 	if o.L < 0 || o.L >= len(w.loaders) {
 		return "RBadLoader"
